@@ -25,12 +25,16 @@ from harness import c02
 sys.path.insert(0, os.path.join(VERIF, 'tools', 'gen'))
 
 PROP = 'C12'
-GENERATORS = ['gen_tables', 'gen_versioned']
+GENERATORS = ['gen_tables', 'gen_versioned', 'gen_dispatch']
 TRUSTED = [
     'table extractor tools/gen/gen_tables.py: registries, class table and rename table are regenerated from the package on every run; '
     'its rule for "this package writes class C": C is concrete, defined under exactly that name, has a saver by the dispatch rules and is '
     'referred to by another non-test module of the package (ast)',
-    'hand model of VersionedDict (state machine), of saver/loader dispatch and of the rename loop: tied by the correspondence streams',
+    'translator tools/gen/gen_dispatch.py (python ast -> Gallina, fail-closed): the whole class VersionedDict, lookup_class_with_patches, the saver / loader '
+    'decorators, GlueSerializer._dispatch / do and GlueUnSerializer._dispatch are regenerated from glue/core/state.py on every run (coq/gen/Gen_dispatch.v); '
+    'C12/GenEquiv.v proves that they compute what the hand model computes; trusted: the prelude of the generated file (dict / defaultdict / set as '
+    'association lists, exceptions as outcomes) and the `ops` it leaves open (int(), type(), mro(), hasattr/getattr, lookup_class, the saver call)',
+    'hand model of VersionedDict (state machine), of saver/loader dispatch and of the rename loop: tied by the correspondence streams and by the equivalence with the translated functions',
     '"still loads what it saved" (behaviour of the per-version savers and loaders) is checked by the protocol stream (correspondence/oracle), not proved',
     'glue_qt.* rename targets belong to another package and are not required to import',
 ]
@@ -57,7 +61,7 @@ def vd_ops_alphabet(full):
     return sets + gets
 
 
-def vd_enc(ops):
+def vd_enc(ops, tag_=1):
     out = []
     for i, o in enumerate(ops):
         if o[0] == 'set':
@@ -74,7 +78,7 @@ def vd_enc(ops):
             out.append((5, []))
         else:
             out.append((6, []))
-    return enc((1, out))
+    return enc((tag_, out))
 
 
 def vd_impl(VersionedDict, ops):
@@ -88,7 +92,9 @@ def vd_impl(VersionedDict, ops):
             if o[0] == 'set':
                 d[o[1], ('bad' if o[2] is None else o[2])] = 100 + i
                 r = ('none',)
-                seen[(o[1], o[2])] = 100 + i
+                if (o[1], o[2]) in seen and bad is None:
+                    bad = 'step %d: version %r of key %r was assigned a second time (write-once)' % (i, o[2], o[1])
+                seen.setdefault((o[1], o[2]), 100 + i)
             elif o[0] == 'getitem':
                 x, v = d[o[1]]
                 r = ('pair', x, v)
@@ -182,8 +188,14 @@ def stream_versioned_dict(R, VersionedDict):
     for i in range(0, len(seqs), chunk):
         part = seqs[i:i + chunk]
         outs = R.model([vd_enc(o) for o in part])
-        for ops, o in zip(part, outs):
+        gouts = R.model([vd_enc(o, 31) for o in part])     # the same cases through the functions translated from state.py
+        for ops, o, go in zip(part, outs, gouts):
             res, state, bad = vd_impl(VersionedDict, ops)
+            g_res, g_state = vd_model_parse(go) if not is_err(go) else (None, None)
+            if (res, state) != (g_res, g_state) and nfail < 20:
+                nfail += 1
+                R.fail('correspondence', {'stream': 'versioned_dict', 'ops': ops, 'through': 'translated VersionedDict (Gen_dispatch)'},
+                       {'impl': [res, state], 'translated': [g_res, g_state]})
             nstored = sum(len(v) for _, v in state)
             R.count(('vd', ops), nontrivial=nstored > 0, stream='versioned_dict', vd_len=len(ops), vd_stored=min(nstored, 6))
             m_res, m_state = vd_model_parse(o)
@@ -290,6 +302,7 @@ def stream_dispatch(R, T):
         for v in range(1, 7):
             lines.append(enc((11, [names[r['name']], v])))
     outs = R.model(lines)
+    gouts = R.model([ln.replace('(10 ', '(33 ', 1).replace('(11 ', '(34 ', 1) for ln in lines])     # the translated _dispatch methods over the tables
     per = 7
     skipped = []
 
@@ -319,6 +332,10 @@ def stream_dispatch(R, T):
             R.count(('saver_of', r['name']), nontrivial=impl is not None, stream='dispatch', dispatch_kind=('none' if impl is None else impl[0]))
             if model_how(o) != impl:
                 R.fail('correspondence', {'stream': 'dispatch', 'what': 'saver_of', 'class': r['name']}, {'model': model_how(o), 'impl': impl})
+            go = gouts[i * per]
+            if is_err(go) or model_how(go) != impl:
+                R.fail('correspondence', {'stream': 'dispatch', 'what': 'translated GlueSerializer._dispatch', 'class': r['name']},
+                       {'translated': go if is_err(go) else model_how(go), 'impl': impl})
             if impl and impl[0] == 'reg':
                 # save uses the newest: the property on the live registry
                 T_ = h[1]
@@ -345,6 +362,10 @@ def stream_dispatch(R, T):
             R.count(('loader_of', r['name'], v), nontrivial=impl is not None, stream='dispatch', dispatch_kind=('none' if impl is None else impl[0]))
             if model_how(om) != impl:
                 R.fail('correspondence', {'stream': 'dispatch', 'what': 'loader_of', 'class': r['name'], 'version': v}, {'model': model_how(om), 'impl': impl})
+            go = gouts[i * per + v]
+            if is_err(go) or model_how(go) != impl:
+                R.fail('correspondence', {'stream': 'dispatch', 'what': 'translated GlueUnSerializer._dispatch', 'class': r['name'], 'version': v},
+                       {'translated': go if is_err(go) else model_how(go), 'impl': impl})
     # ---- registry properties on the live registries (the oracle for the table theorems)
     sv = {k: dict(v) for k, v in S.GlueSerializer.dispatch._data.items() if v}
     lv = {k: dict(v) for k, v in S.GlueUnSerializer.dispatch._data.items() if v}
@@ -449,16 +470,21 @@ def reg_run_case(S, ops):
                         break
                 try:
                     rec = S.GlueSerializer(cls()).dumpo()['__main__']
-                    used = ('used', rec['fn'], rec.get('_protocol', 1))
+                    used = ('used', rec['fn'], rec.get('_protocol', 1), {'RegA': 0, 'RegB': 1, 'RegC': 2}.get(rec['_type'].rsplit('.', 1)[-1], -1)
+                            if rec['_type'].startswith(__name__ + '.') else -1)
                 except S.GlueSerializeError:
                     rec, used = None, ('err', 5)
                 except ValueError:
                     rec, used = None, ('err', VALERR)
+                except KeyError:
+                    rec, used = None, ('err', KEYERR)
                 res.append(('save',) + used)
                 if bad is None and not blocked:
                     if expect is None and used[0] == 'used':
                         bad = 'op %d: an object of a class without any saver was written by saver #%d' % (k, used[1])
-                    elif expect is not None and used != ('used', expect[2], expect[1]):
+                    elif used[0] == 'used' and used[3] != ci:
+                        bad = 'op %d: the record of an object of %s is stamped with _type %r' % (k, cls.__name__, rec['_type'])
+                    elif expect is not None and used[:3] != ('used', expect[2], expect[1]):
                         bad = ('op %d: save of %s should use the newest version %d registered for %s (function #%d), the record was written by %s'
                                % (k, cls.__name__, expect[1], classes[expect[0]].__name__, expect[2],
                                   'function #%d as protocol %d' % (used[1], used[2]) if used[0] == 'used' else 'nothing (%r)' % (used,)))
@@ -467,7 +493,7 @@ def reg_run_case(S, ops):
                     mops.append((3, [ci, v]))
                     try:
                         back = S.GlueUnSerializer.loads(json.dumps(rec and {'__main__': rec})).object('__main__')
-                        lres = ('load', 'used', getattr(back, 'loaded_by', None), v)
+                        lres = ('load', 'used', getattr(back, 'loaded_by', None), v, classes.index(type(back)) if type(back) in classes else -1)
                         ok = type(back) is cls and getattr(back, 'fn', None) == rec['fn']
                         if bad is None and expect is not None and not blocked and (not ok or back.loaded_by != expect[2]):
                             bad = 'op %d: the record written for %s was not restored by the loader registered with its saver' % (k, cls.__name__)
@@ -540,8 +566,10 @@ def stream_registration(R):
             R.fail('oracle', {'stream': 'registration', 'ops': [list(o) for o in small], 'classes': 'RegA <- RegB <- RegC (index 0, 1, 2)'},
                    {'why': reg_run_case(S, small)[2]})
     outs = R.model(lines)
+    gouts = R.model(['(32' + ln[3:] for ln in lines])     # the same cases through the translated decorators / do / _dispatch
     ncorr = 0
-    for ops, res, o in zip(seqs, impl, outs):
+    for ops, res, o, through in [(a, b, c, 'hand model') for a, b, c in zip(seqs, impl, outs)] + \
+            [(a, b, c, 'translated saver / loader / GlueSerializer.do / GlueUnSerializer._dispatch (Gen_dispatch)') for a, b, c in zip(seqs, impl, gouts)]:
         model = reg_model_parse(o)
         # bring the implementation's results into the model's vocabulary: (class, version, function) for saves and loads
         conv = []
@@ -549,21 +577,21 @@ def stream_registration(R):
             if r[0] == 'reg':
                 conv.append(('reg', r[1]))
             elif r[0] == 'save':
-                conv.append(('used?', r[3], r[2]) if r[1] == 'used' else ('err', r[2]))
+                conv.append(('used?', r[3], r[2], r[4]) if r[1] == 'used' else ('err', r[2]))
             else:
-                conv.append(('used?', r[3], r[2]) if r[1] == 'used' else ('loaderr',))
+                conv.append(('used?', r[3], r[2], r[4]) if r[1] == 'used' else ('loaderr',))
         same = len(conv) == len(model)
         if same:
             for c, m in zip(conv, model):
                 if c[0] == 'used?':
-                    same = same and m[0] == 'used' and (m[2], m[3]) == (c[1], c[2])
+                    same = same and m[0] == 'used' and (m[2], m[3], m[1]) == (c[1], c[2], c[3])
                 elif c[0] == 'loaderr':
                     same = same and m[0] == 'err'
                 else:
                     same = same and c == m
         if not same and ncorr < 6:
             ncorr += 1
-            R.fail('correspondence', {'stream': 'registration', 'ops': [list(o) for o in ops]}, {'impl': res, 'model': model})
+            R.fail('correspondence', {'stream': 'registration', 'ops': [list(o) for o in ops], 'through': through}, {'impl': res, 'model': model})
     after = (len(S.GlueSerializer.dispatch._data), len(S.GlueUnSerializer.dispatch._data))
     if after != before:
         R.fail('correspondence', {'stream': 'registration'}, {'why': 'the stream left entries in the global registries', 'before': before, 'after': after})
@@ -573,6 +601,83 @@ def stream_registration(R):
                    'that contain a save; %d random sequences of 6-11 operations with versions 1..3 on all three classes; fresh classes per case, registries cleaned after each'
                    % (L, R.pick(2000, 20000)))
 
+
+
+# ====================================================================================== stream 2c: the translated pipeline over the real classes
+def stream_translated(R, T):
+    """GlueSerializer.do (stamping of _type / _protocol) + GlueUnSerializer._dispatch of the real code against the translated functions
+    (tag 36), for every (type, version) of the saver registry; the decorator calls found by ast (tag 37) against the live registries"""
+    from glue.core import state as S
+    names = T['names']
+    unser = S.GlueUnSerializer.__new__(S.GlueUnSerializer)
+    pairs = []
+    for cls, vs in S.GlueSerializer.dispatch._data.items():
+        q = c02_qn(cls)
+        if q in names:
+            for v in vs:
+                pairs.append((cls, q, v))
+    outs = R.model([enc((36, [names[q], v])) for _, q, v in pairs])
+    for (cls, q, v), o in zip(pairs, outs):
+        ex = exemplar(cls)
+        if cls in (tuple, list, set):
+            ex = cls([Holder()])          # an empty one is written as a plain nested list, not as a record
+        if ex is None or type(ex) is not cls:
+            continue
+
+        class Forced(S.GlueSerializer):
+            def _dispatch(self, obj, v=v):
+                return (lambda obj, context: {'fn': 0}), v
+        ser = Forced.__new__(Forced)
+        ser._working = set()
+        try:
+            rec = ser.do(ex)
+            impl = [rec.get('_type'), rec.get('_protocol', 1)]
+            try:
+                fn = unser._dispatch(dict(rec))
+                h = how_of(fn, S.GlueUnSerializer.dispatch, cls.__mro__)
+                impl.append(('meth', names.get(c02_qn(h[1]))) if h[0] == 'meth' else (('reg', names.get(c02_qn(h[1])), h[2]) if h[0] == 'reg' else h))
+            except S.GlueSerializeError:
+                impl.append(None)
+            except ValueError:
+                impl.append('ValueError')
+        except Exception as e:
+            impl = ['do raised %s' % type(e).__name__]
+        impl[0] = names.get({'types.FunctionType': 'builtins.function', 'types.MethodType': 'builtins.method'}.get(impl[0], impl[0]), impl[0])
+        if is_err(o):
+            model = ['error %d' % err_code(o)]
+        else:
+            k_ = kids(o)
+            hw = k_[3]
+            if is_err(hw):
+                hm = 'ValueError' if err_code(hw) == 1 else 'error %d' % err_code(hw)
+            else:
+                h = kids(hw)[0]
+                hm = None if (tag(h) == 0 and not kids(h)) else (('meth', kids(h)[0][0]) if tag(h) == 1 else ('reg', kids(h)[0][0], kids(h)[1][0]))
+            model = [k_[0][0], k_[1][0], hm]
+        R.count(('translated', q, v), nontrivial=True, stream='translated')
+        if model != impl:
+            R.fail('correspondence', {'stream': 'translated', 'what': 'GlueSerializer.do stamping + GlueUnSerializer._dispatch', 'class': q, 'version': v},
+                   {'translated': model, 'impl': impl})
+    # ---- the decorator calls found by ast are the registrations of the live registries
+    o = R.model([enc((37, []))])[0]
+    byast = {}
+    for row in kids(o):
+        c_, v_, f_ = kids(row)
+        byast.setdefault((bool(tag(row)), c_[0]), []).append(kids(v_)[0][0] if kids(v_) else None)
+    for is_loader, reg in ((False, S.GlueSerializer.dispatch._data), (True, S.GlueUnSerializer.dispatch._data)):
+        for cls, vs in reg.items():
+            q = c02_qn(cls)
+            if q not in names or not vs:
+                continue
+            got = [1 if v is None else v for v in byast.get((is_loader, names[q]), [])]
+            R.count(('registrations', is_loader, q), nontrivial=True, stream='translated')
+            if got != list(vs):
+                R.fail('correspondence', {'stream': 'translated', 'what': 'decorator calls found in the source (ast) against the live registry', 'class': q, 'loader': is_loader},
+                       {'ast': got, 'live': list(vs)})
+    R.stream('translated', cases=len(pairs), exhaustive=True,
+             bound='every (type, version) of the live saver registry through the real GlueSerializer.do (forced version) and GlueUnSerializer._dispatch against '
+                   'the translated ser_do / unser_dispatch; every @saver / @loader decorator found by ast against the live registries. The other streams '
+                   '(versioned_dict, registration, dispatch, patches) run every case also through the translated functions (wire tags 31-35).')
 
 # ====================================================================================== stream 3: rename table
 def stream_patches(R, T):
@@ -600,15 +705,23 @@ def stream_patches(R, T):
     probe = keys + sorted(set(patches.values()) - set(patches)) + ['glue.core.data.Data', 'no.such.Name']
     probe = [p for p in probe if p in names]
     outs = R.model([enc((12, [names[p]])) for p in probe]) if probe else []
+    gouts = R.model([enc((35, [names[p]])) for p in probe]) if probe else []     # the translated lookup_class_with_patches
     real_lookup = S.lookup_class
     try:
         S.lookup_class = lambda n: n
-        for p, o in zip(probe, outs):
+        for p, o, go in zip(probe, outs, gouts):
             impl = S.lookup_class_with_patches(p)
             model = None if not kids(o) else kids(o)[0][0]
             R.count(('resolve', p), nontrivial=p in patches, stream='patches')
             if model != names.get(impl):
                 R.fail('correspondence', {'stream': 'patches', 'what': 'resolve', 'name': p}, {'model': model, 'impl': impl})
+            if impl in patches:
+                # the property on the real loop: it must run to the end of the chain of redirections
+                R.fail('oracle', {'stream': 'patches', 'what': 'lookup_class_with_patches stops before the end of a chain of redirections', 'entry': [p, patches.get(p, p)]},
+                       {'why': 'it looks up %r, which is itself redirected to %r' % (impl, patches[impl])})
+            gmodel = None if (is_err(go) or not kids(go)) else kids(go)[0][0]
+            if gmodel != names.get(impl):
+                R.fail('correspondence', {'stream': 'patches', 'what': 'translated lookup_class_with_patches', 'name': p}, {'translated': gmodel, 'impl': impl})
     finally:
         S.lookup_class = real_lookup
     # ---- oracle 2: targets inside this package import
@@ -1021,7 +1134,7 @@ def run(R):
         if sizes != mine:
             R.fail('correspondence', {'stream': 'tables'}, {'why': 'the tables compiled into the model differ from the tables of the running package', 'model': sizes, 'now': mine})
             return
-    for fn, args in ((stream_versioned_dict, (R, VersionedDict)), (stream_registration, (R,)), (stream_dispatch, (R, T)), (stream_patches, (R, T)), (stream_protocol, (R, T))):
+    for fn, args in ((stream_versioned_dict, (R, VersionedDict)), (stream_registration, (R,)), (stream_dispatch, (R, T)), (stream_translated, (R, T)), (stream_patches, (R, T)), (stream_protocol, (R, T))):
         try:
             fn(*args)
         except Exception:                 # keep going: another stream may still find the failing input
